@@ -40,3 +40,7 @@ func Observe(label string, v uint64)
 func AllMapOrders(on bool)
 func AllSchedules(on bool)
 func Symbolic() bool
+
+// Leaked lets every goroutine run until nothing can move, then names the goroutines (other than the
+// caller) that still exist; "" when there are none.
+func Leaked() string
